@@ -16,6 +16,10 @@ func init() {
 				_, nSink := reportOrderEvents(p, r, or, orderRules{sink: "R15d"})
 				r.Floor("R15d", "requires-sorted call sites reached from the tracker", nSink, 2)
 			}},
+			{ID: "R15h", Statement: "generating a schedule leaves the recorded history untouched", Run: func(p *Program, r *Report) {
+				r.Rule("R15h", "HISTORY-READ-ONLY: under GenerateCachingSchedule no write (element store, append onto, in-place sort/delete/insert, copy into) reaches a list recorded by AddBlockSummary or anything that may alias it")
+				checkHistoryReadOnly(p, r, "R15h")
+			}},
 			{ID: "R15g", Statement: "detection with a discarded error only on positions that exist", Run: func(p *Program, r *Report) {
 				r.Rule("R15g", "EXISTENCE-BEFORE-DETECTION: in the tracker, a position function whose error is discarded is applied to an element of a position list only behind an exact existence test of that position (or the list is in the reviewed table of lists that hold existing positions only)")
 				checkExistenceBeforeDetection(p, r, "R15g")
